@@ -432,6 +432,8 @@ def gen_build(rng, sc, lr_fail_bias=False):
         opts["debug_colors"] = True  # sets the module-global termui.colors
     if kind == "lr" and rng.random() < 0.1:
         opts["return_position"] = True
+    if rng.random() < 0.03:
+        opts["debug"] = True  # tracing output goes to /dev/null; own code paths in GLR
     b = {"kind": kind, "opts": opts}
     b["recovery"] = rng.choice(["off", "off", "default", "default", "skip", "inject", "mixed",
                                 "pureskip"])
